@@ -13,6 +13,12 @@ them through `EAO.C09.assemble_feasible_iff` / `assemble_value`: the assembled p
 portfolio problem have the same attainable values (stated with upper bounds; no optimum is assumed to exist),
 and every feasible point of the assembled problem maps to a textbook-feasible one with the same flows.
 
+Theorems: `portfolio_refines`; `storage_refines_two`, `storage_refines_one`; `transport_refines`,
+`ext_transport_refines` (+ `take_rows_spec_transport`); `contract_refines_one`, `contract_refines_two`,
+`take_rows_spec`, `contract_take_refines`, `multi_refines`; `empty_window_refines`, `empty_window_refines_storage`.
+`IdxInj g` (used where take rows are read): the steps of the window are pairwise different — they are increasing
+reference indices of the portfolio grid (`EAO.Storage.IdxInc` is the same fact for storages).
+
 Helper lemmas: `EAO/Lemmas/Textbook.lean` (namespace `EAO.Textbook`).
 -/
 namespace EAO.C02
@@ -564,5 +570,47 @@ theorem ec_nonneg_needed :
     grind
   simp [ContractS.cash, contractS1, sumN, g1, Grid.T, h0, absR, dfOf]
   grind
+
+/-! ### multi-commodity contract with a spread on both sides and a maximum take (two-variable form) -/
+
+theorem g2_inj : IdxInj g2 := by
+  intro i j hi hj h
+  simp only [g2, Grid.T, List.length] at hi hj
+  rcases i with _ | _ | i <;> rcases j with _ | _ | j <;> simp_all [g2] <;> omega
+
+/-- 4 h period with volume 4, of which the 2 h of the window are covered: limit 2 -/
+def ctM : ContractP :=
+  { name := "c", nodes := ["n", "m"], price := some "p", extraCosts := .scalar (1/2), minCap := .scalar (-2),
+    maxCap := .scalar 3, minTake := [], maxTake := [(0, 14400, 4)] }
+def ctMS : ContractS := contractSG [-2, -2] [3, 3] [3, 5] [1/2, 1/2] [("n", 2), ("m", 1/2)] ctM.maxTake [] 3600
+/-- buys 1 and sells 1 in step 0 (wasteful), sells 2 in step 1: net `q = (0, 2)` -/
+def ctMY : Vec := vecOf [-1, 0, 1, 2]
+def ctMQ : Nat → Rat := fun k => ctMY k + ctMY (2 + k)
+
+/-- hypotheses of `multi_refines` (two-variable branch) hold; on the model's point: feasible, flows `factor·q`
+    at both nodes, take volume 2 at its prorated limit 2, and the netted textbook point earns MORE (−11/2 vs −13/2) -/
+example : g2.Ok ∧ (∀ k, k < g2.T → 0 ≤ dfOf g2 k) ∧
+    (match buildMulti ctM [2, 1/2] g2 [("p", [3, 5])] 2 3600 with
+      | .ok a => decide (a.n = 4) && feasB a ctMY &&
+                 decide (flowOf a "n" 1 ctMY = 4) && decide (flowOf a "m" 1 ctMY = 1) &&
+                 decide (flowOf a "n" 0 ctMY = 0) &&
+                 decide (- costAt a.c 0 ctMY = -13/2) && decide (ctMS.cash g2 ctMQ = -11/2)
+      | .error _ => false) = true ∧
+    ctMS.flows g2 ctMQ "n" 1 = 4 ∧ ctMS.flows g2 ctMQ "m" 1 = 1 ∧
+    (toPeriod (0, 14400, 4)).limit g2 3600 = 2 ∧ (toPeriod (0, 14400, 4)).volume g2 ctMQ = 2 := by
+  decide +kernel
+
+/-- extended transport (positive direction) with a maximum take: hypotheses of `ext_transport_refines` hold -/
+def xt : TransportP :=
+  { name := "t", nodes := ["a", "b"], costsConst := 1/2, costsKey := none, minCap := 0, maxCap := 2,
+    efficiency := 3/4, minTake := [], maxTake := [(0, 14400, 4)] }
+example : xt.nodes.Nodup ∧ (match buildExtTransport xt g2 [] 2 3600 with
+      | .ok a => feasB a (vecOf [1, 1]) && !(feasB a (vecOf [2, 1])) && decide (a.rows.length = 1)
+      | .error _ => false) = true := by decide +kernel
+
+/-- empty window: the set-up of a contract on a grid without steps succeeds and has no variable -/
+def g0 : Grid := { pts := [], idx := [], dt := [], Dt := [], df := [] }
+example : g0.Ok ∧ g0.T = 0 ∧ (match buildContract ctM g0 [("p", [3, 5])] 2 3600 with
+      | .ok a => decide (a.n = 0) | .error _ => false) = true := by decide +kernel
 
 end EAO.C02.Ex
